@@ -1,5 +1,5 @@
 (* Run.v — entry points evaluated by the correspondence check (cases_*.v), and their renderers. *)
-From TF Require Export Exec Show.
+From TF Require Export Exec Sem Show.
 Local Open Scope string_scope.
 Local Open Scope list_scope.
 
@@ -33,4 +33,12 @@ Definition run_exec_site (re : string -> string -> option bool) (d : dataset) (r
             | Panic s => ("PANIC@" ++ s)%string
             | Ok rows => ("ROWS:" ++ show_rows rows)%string
             end
+  end.
+
+(* the specification side: rows the query language defines *)
+Definition run_sem (re : string -> string -> option bool) (d : dataset) (rq : raw_query)
+           (args : list (string * fv)) : string :=
+  match lower_query rq with
+  | Panic _ => "PANIC"
+  | Ok q => ("ROWS:" ++ show_rows (sem re (graph_of_dataset d) args q))%string
   end.
